@@ -48,6 +48,12 @@ def run(chk, tier):
                             if isinstance(e, dict) and e.get('adt') == 'Unimock':
                                 used.setdefault(e['name'], set()).add(body.defp)
         allowed = {'shared_state'} | ({'panicked'} if 'nostd' in cfg else set())
+        # (a field of a type without any field carries no state: nothing a call could observe through it differs between instances)
+        from facts import strip_generics
+        for f_ in F.adts['Unimock']['variants'][0]['fields']:
+            t_ = F.adts.get(strip_generics(f_['ty']))
+            if t_ and t_.get('local') and t_['kind'] == 'struct' and all(not v_['fields'] for v_ in t_['variants']):
+                allowed.add(f_['name'])
         chk.ob('R18.3', 'a mocked call only looks at the state shared by all clones (never at per-instance fields)', set(used) <= allowed, config=cfg, site='unimock-fields',
                what='call path reads Unimock.%s' % sorted(set(used) - allowed), found={k: sorted(v)[:3] for k, v in used.items()}, expected=sorted(allowed))
         chk.floor('R18.3', 'functions on the mocked-call path', len(callpath), 15, config=cfg)
